@@ -33,6 +33,10 @@ type wEvent struct {
 	Batch   []int64 `json:"batch,omitempty"`
 	// prepare: the handler returned no anchor string (every operation of the batch has expired: nothing to anchor)
 	NoAnchor bool `json:"no_anchor,omitempty"`
+	// prepare: a CAS write failed during the call and the handler still reported success
+	CASFailureIgnored bool `json:"cas_failure_ignored,omitempty"`
+	// anchor (written): the anchored batch could not be read back from the CAS / reads back another number of operations
+	ReadBack string `json:"read_back,omitempty"`
 }
 
 type wRecorder struct {
@@ -118,12 +122,14 @@ func (q *wQueue) content() []int64 {
 type failingCAS struct {
 	inner  *mocks.MockCasClient
 	writes int
+	failed int // injected failures so far
 	failAt map[int]bool
 }
 
 func (c *failingCAS) Write(b []byte) (string, error) {
 	c.writes++
 	if c.failAt[c.writes] {
+		c.failed++
 		return "", errors.New("injected CAS write failure")
 	}
 	return c.inner.Write(b)
@@ -134,11 +140,21 @@ func (c *failingCAS) Read(a string) ([]byte, error) { return c.inner.Read(a) }
 type wHandler struct {
 	inner protocol.OperationHandler
 	rec   *wRecorder
+	cas   *failingCAS
 }
 
 func (h *wHandler) PrepareTxnFiles(ops []*operation.QueuedOperation) (*protocol.AnchoringInfo, error) {
+	failedBefore := 0
+	if h.cas != nil {
+		failedBefore = h.cas.failed
+	}
 	info, err := h.inner.PrepareTxnFiles(ops)
 	e := wEvent{Kind: "prepare", OK: err == nil}
+	// a batch one of whose files could not be written must not be reported as prepared (it would be anchored
+	// with a file missing): every CAS write failure fails the batch
+	if h.cas != nil && h.cas.failed > failedBefore && err == nil {
+		e.CASFailureIgnored = true
+	}
 	for _, x := range ops {
 		e.Batch = append(e.Batch, opID(x))
 	}
@@ -163,6 +179,8 @@ type wAnchor struct {
 	calls  int
 	failAt map[int]bool
 	log    []anchorEntry
+	// the operation providers of the protocol versions (they read from the same CAS): what is anchored must read back
+	providers []protocol.OperationProvider
 }
 
 func (a *wAnchor) WriteAnchor(anchor string, _ []*protocol.AnchorDocument, refs []*operation.Reference, pv uint64) error {
@@ -179,7 +197,23 @@ func (a *wAnchor) WriteAnchor(anchor string, _ []*protocol.AnchorDocument, refs 
 	n := 0
 	fmt.Sscanf(anchor, "%d.", &n)
 	a.log = append(a.log, anchorEntry{Version: pv, Refs: rs, Count: n})
-	a.rec.add(wEvent{Kind: "anchor", OK: true})
+	// successfully anchored means readable: the files the anchor string refers to are all in the CAS
+	rb := ""
+	if len(a.providers) > 0 {
+		rb = "no provider could read it"
+		for _, p := range a.providers {
+			ops, err := p.GetTxnOperations(&txn.SidetreeTxn{AnchorString: anchor, Namespace: "did:sidetree", ProtocolVersion: pv})
+			if err == nil {
+				rb = ""
+				if len(ops) != len(refs) {
+					rb = fmt.Sprintf("%d operations read back, %d references anchored", len(ops), len(refs))
+				}
+				break
+			}
+			rb = err.Error()
+		}
+	}
+	a.rec.add(wEvent{Kind: "anchor", OK: true, ReadBack: rb})
 	return nil
 }
 
@@ -382,7 +416,8 @@ func runSchedule(s *wSchedule, bank []wOp, ids map[int64]wAdd) (res wResult) {
 		p.GenesisTime = g
 		p.MaxOperationCount = s.max
 		v := world.NewVersion(fmt.Sprint(g), p, world.VersionOpts{CAS: cas, ParserOpts: []operationparser.Option{operationparser.WithAnchorTimeValidator(expiryValidator{})}})
-		v.HandlerOverride = &wHandler{inner: v.Handler, rec: rec}
+		v.HandlerOverride = &wHandler{inner: v.Handler, rec: rec, cas: cas}
+		anc.providers = append(anc.providers, v.Provider)
 		cl.Versions = append(cl.Versions, v)
 	}
 	w, err := batch.New("did:sidetree", &wContext{pc: cl, a: anc, q: q})
@@ -465,6 +500,10 @@ func runC16(c *ctx) error {
 				continue
 			case "prepare":
 				pending = nil
+				if e.CASFailureIgnored {
+					r.Direct = append(r.Direct, out.Direct{Oracle: "cas_write_failure_fails_the_batch",
+						What: fmt.Sprintf("a CAS write failed while batch %v was prepared and PrepareTxnFiles reported success", e.Batch), Case: desc})
+				}
 				if e.OK {
 					pending = e
 					allExp := len(e.Expired) == len(e.Batch)
@@ -478,6 +517,9 @@ func runC16(c *ctx) error {
 					}
 				}
 			case "anchor":
+				if e.OK && e.ReadBack != "" {
+					r.Direct = append(r.Direct, out.Direct{Oracle: "anchored_batch_reads_back", What: e.ReadBack, Case: desc})
+				}
 				if pending == nil || len(pending.Expired) == len(pending.Batch) {
 					r.Direct = append(r.Direct, out.Direct{Oracle: "anchor_write_only_after_prepare_with_included_operations",
 						What: fmt.Sprintf("WriteAnchor after %+v", pending), Case: desc})
